@@ -2,6 +2,8 @@ package samlsim
 
 import (
 	"bytes"
+	"crypto/rsa"
+	"crypto/sha1"
 	"encoding/base64"
 	"encoding/xml"
 	"errors"
@@ -85,6 +87,9 @@ type c08Step struct {
 	// emit: the k-th read from the xmlenc random source during this emission fails (0: none; a transient entropy fault)
 	RandFailAt int `json:"rand_read_fails_at,omitempty"`
 	RandErr    int `json:"rand_error_kind,omitempty"` // index into the error kinds a failing source may return (0: a plain error; ENOENT path errors, ErrNotExist, EOFs, EAGAIN, deadline)
+	// emit: the xmlenc random source hands out at most this many bytes per call, without error (an io.Reader may): the i-th read of the emission
+	// is cut to the (i mod len)-th entry
+	RandShort []int `json:"rand_reads_return_at_most,omitempty"`
 	// emit: the application drives the IdpAuthnRequest API itself and, when writing the response fails, tries again on the SAME request object
 	Retry bool `json:"retry_on_same_request,omitempty"`
 	// emit: the login is IdP-initiated (ServeIDPInitiated for the SP's entity ID): no request, the SP's registered default endpoint
@@ -112,6 +117,9 @@ type c08Step struct {
 	Arg       int    `json:"arg,omitempty"`
 	Bit       int    `json:"bit,omitempty"`
 	SignAfter bool   `json:"response_signed_after,omitempty"` // the trusted key signs the Response *after* the alteration (a faulty IdP rather than Mallory)
+	// inner, tamper: how the sender encrypts: key transport ("": rsa-oaep-mgf1p; rsa-1_5) and block cipher ("": aes128-cbc; aes192-cbc; aes256-cbc)
+	Transport string `json:"key_transport,omitempty"`
+	Cipher    string `json:"block_cipher,omitempty"`
 }
 
 const (
@@ -189,7 +197,11 @@ var c08Defects = []string{"none", "none", "conditions-expired", "not-yet-valid",
 	"conditions-expired+declarations", "confirmation-expired+declarations", "wrong-recipient+declarations", "wrong-in-response-to+declarations"}
 
 var c08Ops = []string{"flip-data", "flip-data", "flip-key", "truncate-data", "truncate-data", "truncate-key", "swap-key", "swap-data", "remove-key", "two-keys",
-	"empty-cipher-value", "not-base64-cipher-value", "wrong-algorithm", "mis-keyed", "junk-plaintext", "key-as-direct-child"}
+	"empty-cipher-value", "not-base64-cipher-value", "wrong-algorithm", "mis-keyed", "junk-plaintext", "key-as-direct-child",
+	"keyless-sender", "keyless-sender", "keyless-sender"}
+
+// c08PublicKeys: content keys that take no secret to know - what a sender who holds no key at all can encrypt under (keyless-sender, by Arg)
+var c08PublicKeys = []string{"all-zero", "all-zero", "all-ones", "counting", "leading-bytes-of-the-encrypted-key", "leading-bytes-of-the-sp-certificate"}
 
 var c08TruncLens = []int{0, 1, 15, 16, 17, 31, 32, 33, 47, 48, 49, 64, 65, -16, -1, -17}
 
@@ -245,6 +257,12 @@ func genEncrypt(g *Rng, tier string) *Plan {
 			st.RandErr = g.Intn(len(c08EntropyErrs))
 			st.Retry = g.Bool(0.5)
 		}
+		if g.Bool(0.2) {
+			most := Pick(g, 1, 1, 2, 3, 7, 15, 31)
+			for i, n := 0, 1+g.Intn(6); i < n; i++ {
+				st.RandShort = append(st.RandShort, 1+g.Intn(most))
+			}
+		}
 		if !st.Retry && g.Bool(0.2) {
 			st.IdPInit = true
 		}
@@ -257,9 +275,11 @@ func genEncrypt(g *Rng, tier string) *Plan {
 	genSPSide := func() c08Step {
 		if g.Bool(0.5) {
 			return c08Step{Kind: "inner", Defect: Pick(g, c08Defects...),
-				RespSign: Pick(g, "none", "none", "trusted", "mallory"), AsrtSign: Pick(g, "trusted", "trusted", "none", "mallory")}
+				RespSign: Pick(g, "none", "none", "trusted", "mallory"), AsrtSign: Pick(g, "trusted", "trusted", "none", "mallory"),
+				Transport: Pick(g, "", "", "rsa-1_5"), Cipher: Pick(g, "", "", "aes192-cbc", "aes256-cbc")}
 		}
-		st := c08Step{Kind: "tamper", Op: Pick(g, c08Ops...), Arg: g.Intn(1 << 20), Bit: g.Intn(8), SignAfter: g.Bool(0.35)}
+		st := c08Step{Kind: "tamper", Op: Pick(g, c08Ops...), Arg: g.Intn(1 << 20), Bit: g.Intn(8), SignAfter: g.Bool(0.35),
+			Transport: Pick(g, "", "rsa-1_5"), Cipher: Pick(g, "", "", "aes192-cbc", "aes256-cbc")}
 		if st.Op == "truncate-data" {
 			st.Arg = Pick(g, c08TruncLens...)
 		}
@@ -631,7 +651,9 @@ type c08Recorder struct {
 	reads  int
 	failAt int // the failAt-th read while recording fails (0: none)
 	failed bool
-	errIdx int // which error the failing read returns
+	errIdx int   // which error the failing read returns
+	atMost []int // non-empty: the i-th read while recording hands out at most atMost[i mod len] bytes (short reads, no error)
+	short  int   // reads that were cut short
 }
 
 var errC08Entropy = errors.New("getrandom: resource temporarily unavailable (injected)")
@@ -654,6 +676,12 @@ func (c *c08Recorder) Read(p []byte) (int, error) {
 		if c.failAt > 0 && c.reads == c.failAt {
 			c.failed = true
 			return 0, c08EntropyErrs[c.errIdx%len(c08EntropyErrs)]
+		}
+		if len(c.atMost) > 0 {
+			if m := c.atMost[(c.reads-1)%len(c.atMost)]; m > 0 && m < len(p) {
+				p = p[:m]
+				c.short++
+			}
 		}
 	}
 	n, err := c.r.Read(p)
@@ -1131,6 +1159,7 @@ func c08Emit(w *c08World, res *Result, si int, st c08Step) bool {
 	w.idp.AssertionMaker = nil
 	w.rec.drawn, w.rec.on = nil, true
 	w.rec.reads, w.rec.failAt, w.rec.failed, w.rec.errIdx = 0, st.RandFailAt, false, st.RandErr
+	w.rec.atMost, w.rec.short = st.RandShort, 0
 	var rep *reply
 	if st.Retry {
 		// NewIdpAuthnRequest / Validate / MakeAssertion / WriteResponse by hand; a failed WriteResponse is retried once
@@ -1175,7 +1204,12 @@ func c08Emit(w *c08World, res *Result, si int, st c08Step) bool {
 		res.fire("entropy-read-error")
 		res.logf("step %d read %d from the encryption random source failed", si, st.RandFailAt)
 	}
+	if w.rec.short > 0 {
+		res.fire("entropy-short-reads")
+		res.logf("step %d the encryption random source handed out fewer bytes than asked for (without error) on some reads", si)
+	}
 	drawn := append([]byte{}, w.rec.drawn...)
+	w.rec.atMost = nil
 	w.emitted++
 
 	if rep.Panic != nil && st.HandBuilt == "descriptor-not-named" {
@@ -1360,9 +1394,23 @@ func c08Emit(w *c08World, res *Result, si int, st c08Step) bool {
 	}
 	pi, pc := bytes.Index(drawn, iv), bytes.Index(drawn, cek)
 	res.logf("step %d randomness drawn>=32=%v iv-drawn-now=%v cek-drawn-now=%v cek-len=%d", si, len(drawn) >= 32, pi >= 0, pc >= 0 && len(cek) > 0, len(cek))
+	if w.rec.short > 0 {
+		res.probe("randomness-judged-after-short-reads")
+	}
+	// what left under encryption is only as closed as its key: the harness owns the source and knows every byte it handed out, so a CEK
+	// (or IV) that continues with zero bytes the source never delivered has less entropy than was asked for, whatever the reads returned
+	cekGot, cekFilled := c08ZeroFilled(drawn, cek)
+	ivGot, ivFilled := c08ZeroFilled(drawn, iv)
+	delivered := fmt.Sprintf("the source handed out %d bytes in %d reads during this emission", len(drawn), w.rec.reads)
 	switch {
 	case len(cek) < 16:
 		res.violate(si, "weak-cek", "C08/randomness/cek-too-short", ">= 16 bytes", fmt.Sprint(len(cek)), "")
+	case pc < 0 && cekFilled:
+		res.violate(si, "key-bytes-never-delivered", "C08/randomness/cek-zero-filled-beyond-delivered-bytes", fmt.Sprintf("each of the %d CEK bytes is a byte the random source handed out during this emission", len(cek)),
+			fmt.Sprintf("%d delivered byte(s) followed by %d zero bytes the source never handed out", cekGot, len(cek)-cekGot), delivered)
+	case pi < 0 && ivFilled:
+		res.violate(si, "key-bytes-never-delivered", "C08/randomness/iv-zero-filled-beyond-delivered-bytes", fmt.Sprintf("each of the %d IV bytes is a byte the random source handed out during this emission", len(iv)),
+			fmt.Sprintf("%d delivered byte(s) followed by %d zero bytes the source never handed out", ivGot, len(iv)-ivGot), delivered)
 	case len(drawn) < 32:
 		res.violate(si, "stale-randomness", "C08/randomness/too-few-bytes-drawn", ">= 32 fresh bytes drawn during this emission", fmt.Sprint(len(drawn)), "")
 	case pc < 0:
@@ -1385,6 +1433,22 @@ func c08Emit(w *c08World, res *Result, si int, st c08Step) bool {
 	w.ivs[string(iv)] = w.emitted
 	w.ceks[string(cek)] = w.emitted
 	return false
+}
+
+// c08ZeroFilled: b is not among the delivered bytes as a whole; got = the longest beginning of b that is (as one stretch), filled = everything
+// after it is zero (bytes of a buffer that no read ever wrote to).
+func c08ZeroFilled(drawn, b []byte) (got int, filled bool) {
+	if len(b) == 0 || bytes.Contains(drawn, b) {
+		return len(b), false
+	}
+	for got = len(b) - 1; got > 0 && !bytes.Contains(drawn, b[:got]); got-- {
+	}
+	for _, x := range b[got:] {
+		if x != 0 {
+			return got, false
+		}
+	}
+	return got, true
 }
 
 // c08HandBuilt: an application's own IdP-initiated launch. It looks the SP up in the registry, fills in an IdpAuthnRequest by hand
@@ -1519,6 +1583,7 @@ func c08Inner(w *c08World, res *Result, si int, st c08Step) bool {
 		s := c08BaseSpec(w, si, st.RespSign, st.AsrtSign)
 		c08ApplyDefect(w, &s, st.Defect)
 		s.Assertions[0].Encrypt, s.Assertions[0].EncryptTo = encrypt, c08SPKey
+		s.Assertions[0].EncTransport, s.Assertions[0].EncCipher = st.Transport, st.Cipher
 		return elBytes(BuildResponseEl(&s, t0))
 	}
 	plainDoc, encDoc := build(false), build(true)
@@ -1537,7 +1602,8 @@ func c08Inner(w *c08World, res *Result, si int, st c08Step) bool {
 	case sigOK && st.Defect == "none":
 		expect = "ACCEPT"
 	}
-	res.logf("step %d inner defect=%s response-signed-by=%s assertion-signed-by=%s expect=%s plaintext=%s encrypted=%s", si, st.Defect, st.RespSign, st.AsrtSign, expect, dp, de)
+	res.logf("step %d inner defect=%s response-signed-by=%s assertion-signed-by=%s encrypted-with=%s expect=%s plaintext=%s encrypted=%s", si, st.Defect, st.RespSign, st.AsrtSign, c08Sender(st), expect, dp, de)
+	res.probe("sp-side/sender-encrypts-with/" + c08Sender(st))
 	if st.RespSign != "trusted" && st.AsrtSign != "trusted" {
 		res.probe("forged-by-party-without-idp-key")
 	}
@@ -1582,6 +1648,7 @@ func c08Tamper(w *c08World, res *Result, si int, st c08Step) bool {
 	mk := func(i int) *etree.Element {
 		s := c08BaseSpec(w, i, "none", "trusted")
 		s.Assertions[0].Encrypt, s.Assertions[0].EncryptTo = true, c08SPKey
+		s.Assertions[0].EncTransport, s.Assertions[0].EncCipher = st.Transport, st.Cipher
 		return BuildResponseEl(&s, t0)
 	}
 	signAfter := st.SignAfter
@@ -1691,8 +1758,14 @@ func c08Tamper(w *c08World, res *Result, si int, st c08Step) bool {
 		em := c08Child(ed, "EncryptionMethod")
 		switch st.Arg % 3 {
 		case 0:
-			em.CreateAttr("Algorithm", "http://www.w3.org/2001/04/xmlenc#aes256-cbc")
-			detail = "aes256-for-128-bit-key"
+			// a block cipher whose key is not as long as the one that was wrapped
+			if st.Cipher == "aes256-cbc" {
+				em.CreateAttr("Algorithm", "http://www.w3.org/2001/04/xmlenc#aes128-cbc")
+				detail = "aes128-for-256-bit-key"
+			} else {
+				em.CreateAttr("Algorithm", "http://www.w3.org/2001/04/xmlenc#aes256-cbc")
+				detail = "aes256-for-" + map[string]string{"": "128", "aes128-cbc": "128", "aes192-cbc": "192"}[st.Cipher] + "-bit-key"
+			}
 		case 1:
 			em.CreateAttr("Algorithm", "http://example.com/no-such-algorithm")
 			detail = "unknown"
@@ -1703,14 +1776,12 @@ func c08Tamper(w *c08World, res *Result, si int, st c08Step) bool {
 	case "mis-keyed":
 		s := c08BaseSpec(w, si, "none", "trusted")
 		s.Assertions[0].Encrypt, s.Assertions[0].EncryptTo = true, c08OtherSPKey
+		s.Assertions[0].EncTransport, s.Assertions[0].EncCipher = st.Transport, st.Cipher
 		el = BuildResponseEl(&s, t0)
 	case "junk-plaintext":
 		junk := []string{"", "not xml at all", "<a>", "<saml:Assertion xmlns:saml=\"urn:oasis:names:tc:SAML:2.0:assertion\">", "<x/>", "<a/><b/>", "\x00\x01\x02\xff\xfe"}[st.Arg%7]
 		detail = fmt.Sprintf("junk%d", st.Arg%7)
-		enc := xmlenc.OAEP()
-		enc.BlockCipher = xmlenc.AES128CBC
-		enc.DigestMethod = &xmlenc.SHA1
-		ned, err := enc.Encrypt(rsaKeys[c08SPKey].Cert, []byte(junk), nil)
+		ned, err := senderEncrypter(st.Transport, st.Cipher).Encrypt(rsaKeys[c08SPKey].Cert, []byte(junk), nil)
 		if err != nil {
 			panic(fmt.Sprintf("harness: encrypt junk: %v", err))
 		}
@@ -1724,12 +1795,59 @@ func c08Tamper(w *c08World, res *Result, si int, st c08Step) bool {
 		ed.RemoveChild(ki)
 		ek.CreateAttr("xmlns:ds", "http://www.w3.org/2000/09/xmldsig#") // was declared on the KeyInfo wrapper
 		ea.AddChild(ek)
+	case "keyless-sender":
+		// A sender that holds no key at all - not the IdP's, and it makes no use of the SP's public one either: the EncryptedKey's content is
+		// a number below the SP's modulus and nothing more (no private key opens it as the transport it names: the reference for that is
+		// crypto/rsa itself), and the data - a genuine assertion, signed by the IdP, as anyone who once saw one in clear has it - is encrypted
+		// under a content key that takes no secret to know. Whatever the SP's private key cannot open is a validation failure.
+		spKey := rsaKeys[c08SPKey].Key.(*rsa.PrivateKey)
+		noise := make([]byte, spKey.Size())
+		_, _ = io.ReadFull(newDetReader(uint64(st.Arg), uint64(si), 3), noise[1:])
+		if c08Opens(spKey, st.Transport, noise) {
+			res.dontcare("noise-happens-to-be-a-well-formed-key-transport")
+			return false
+		}
+		bc := senderBlockCipher(st.Cipher)
+		key := make([]byte, bc.KeySize())
+		detail = c08PublicKeys[st.Arg%len(c08PublicKeys)]
+		switch detail {
+		case "all-zero":
+		case "all-ones":
+			for i := range key {
+				key[i] = 0xff
+			}
+		case "counting":
+			for i := range key {
+				key[i] = byte(i)
+			}
+		case "leading-bytes-of-the-encrypted-key":
+			copy(key, noise[1:])
+		case "leading-bytes-of-the-sp-certificate":
+			copy(key, rsaKeys[c08SPKey].Cert.Raw)
+		}
+		s := c08BaseSpec(w, si, "none", "trusted")
+		plain := elBytes(buildAssertionEl(&s.Assertions[0], t0, s.TimeForm, s.SigMethod).Copy())
+		ned, err := bc.Encrypt(key, plain, nil)
+		if err != nil {
+			panic(fmt.Sprintf("harness: encrypt under a public key: %v", err))
+		}
+		ned.CreateAttr("Type", "http://www.w3.org/2001/04/xmlenc#Element")
+		nek := ek.Copy() // the genuine EncryptedKey's form (method, digest, recipient certificate), with the noise for content
+		c08SetCipher(c08Path(nek, "CipherData", "CipherValue"), noise)
+		nki := etree.NewElement("ds:KeyInfo")
+		nki.CreateAttr("xmlns:ds", "http://www.w3.org/2000/09/xmldsig#")
+		nki.AddChild(nek)
+		ned.InsertChildAt(c08Child(ned, "CipherData").Index(), nki)
+		ea.RemoveChild(ed)
+		ea.AddChild(ned)
+		res.probe("sp-side/keyless-sender/" + firstNonEmpty(st.Transport, "rsa-oaep-mgf1p") + "/" + detail)
 	default:
 		panic("harness: unknown tamper op " + st.Op)
 	}
 	res.fire("tamper")
+	res.probe("sp-side/sender-encrypts-with/" + c08Sender(st))
 	d := c08Deliver(w.sp, finish(el), c08ReqID)
-	res.logf("step %d tamper op=%s %s signed-after=%v expect=%s observed=%s", si, st.Op, detail, signAfter, expect, d)
+	res.logf("step %d tamper op=%s %s encrypted-with=%s signed-after=%v expect=%s observed=%s", si, st.Op, detail, c08Sender(st), signAfter, expect, d)
 	if d.Panic != nil {
 		// a recovered panic in a parse call leaves the world intact: the run goes on, but is counted as excluded
 		res.probe("sp-panic/" + st.Op + "/" + strings.SplitN(detail, "/", 2)[0])
@@ -1756,6 +1874,25 @@ func c08Tamper(w *c08World, res *Result, si int, st c08Step) bool {
 		res.dontcare("several-encrypted-keys")
 	}
 	return false
+}
+
+// c08Sender: the sender's choice of key transport and block cipher, for logs and counters.
+func c08Sender(st c08Step) string {
+	return firstNonEmpty(st.Transport, "rsa-oaep-mgf1p") + "+" + firstNonEmpty(st.Cipher, "aes128-cbc")
+}
+
+// c08Opens: does the private key open ct as the named key transport? Judged by crypto/rsa, not by the library under test.
+func c08Opens(key *rsa.PrivateKey, transport string, ct []byte) bool {
+	var err error
+	switch transport {
+	case "", "rsa-oaep-mgf1p":
+		_, err = rsa.DecryptOAEP(sha1.New(), nil, key, ct, nil)
+	case "rsa-1_5":
+		_, err = rsa.DecryptPKCS1v15(nil, key, ct)
+	default:
+		panic("harness: unknown key transport " + transport)
+	}
+	return err == nil
 }
 
 func c08Dash(s string) string {
@@ -1860,7 +1997,7 @@ func simplifyEncrypt(p *Plan) []*Plan {
 func init() {
 	register(&Profile{
 		ID: "C08", Name: "encrypt", Level: "exploration",
-		Rule: "each run: one world (library IdP; the addressee SP registered with its own published metadata whose KeyDescriptors are replaced by a drawn layout: 30 named layouts {use=encryption, use omitted, signing-only, none, several descriptors in both orders, two encryption certs, line-wrapped base64, not-base64, garbage DER, truncated DER, empty, white space, ECDSA cert, no X509Certificate element, malformed-then-valid, empty-then-valid, two certificates in one descriptor} or 1-3 random descriptors, EncryptionMethod children on/off; MaxIssueDelay/MaxClockSkew drawn) and 2-4 emissions (sessions 0-2, same and different) + 0-3 SP-side steps, shuffled. Emission: a real SP request answered by ServeSSO; an eavesdropper scans the HTML and the decoded SAMLResponse for the session's 13 marker strings; the response is handed to SPs holding the addressee's two keys (must accept, right identity), another SP's key and Mallory's key (must reject); the bytes drawn from xmlenc.RandReader during the emission are recorded and the wire IV and the CEK (recovered with the addressee's key) must be separate draws of this emission and differ from all earlier emissions. SP side: 'inner' = foreign-IdP response with one of 13 defects (windows, audience, recipient, InResponseTo, issuer, destination, status) x response/assertion signed by trusted key, Mallory or nobody, delivered once in plaintext and once encrypted to the SP (decisions must agree and match the expectation); 'tamper' = genuine encrypted response with one of 16 ciphertext alterations (bit flips in IV/first/middle block or in the wrapped key, truncation to 0..4 blocks+-1 byte, swapped/removed/duplicated EncryptedKey, swapped data, empty/non-base64 CipherValue, wrong/unknown/absent algorithm, encrypted to another key, junk plaintext), for structural damage also with the trusted key signing the Response after the damage. Application-built requests: about one emission in 25 is an application's own IdP-initiated launch, which fills in the IdpAuthnRequest by hand (registered metadata, first POST endpoint) and names the role descriptor or not, the assertion made by DefaultAssertionMaker on that request or elsewhere on a complete copy; whatever is emitted is judged by the registered metadata as every other emission. Bundled server (30% of runs): the IdP is samlidp.Server on a fault-free store; the registry is the result of a drawn history of PUT /services/<a|b|c> (the addressee's or another SP's metadata, with the run's layout or one of {none, signing-only, enc, nouse}), DELETE and restarts, drawn so that names and entity IDs are re-used (several services carrying one entity ID, a service overwritten with the other entity); a model of the store (name -> entity, layout) says per emission what is registered for the addressee: nothing (a refusal is expected), one layout or several that agree on the key (judged as above), or several that disagree (declared don't-care). Non-trivial = a key, an open region or a panic layout is in play, the run has an SP-side step, or the IdP is the bundled server; distinct = distinct abstract log",
+		Rule: "each run: one world (library IdP; the addressee SP registered with its own published metadata whose KeyDescriptors are replaced by a drawn layout: 30 named layouts {use=encryption, use omitted, signing-only, none, several descriptors in both orders, two encryption certs, line-wrapped base64, not-base64, garbage DER, truncated DER, empty, white space, ECDSA cert, no X509Certificate element, malformed-then-valid, empty-then-valid, two certificates in one descriptor} or 1-3 random descriptors, EncryptionMethod children on/off; MaxIssueDelay/MaxClockSkew drawn) and 2-4 emissions (sessions 0-2, same and different) + 0-3 SP-side steps, shuffled. Emission: a real SP request answered by ServeSSO; an eavesdropper scans the HTML and the decoded SAMLResponse for the session's 13 marker strings; the response is handed to SPs holding the addressee's two keys (must accept, right identity), another SP's key and Mallory's key (must reject); the bytes drawn from xmlenc.RandReader during the emission are recorded and the wire IV and the CEK (recovered with the addressee's key) must be separate draws of this emission and differ from all earlier emissions; in about one emission in five the source hands out at most 1..k bytes per call without error (k from {1,2,3,7,15,31}, a drawn list of 1-6 cuts cycled over the reads of the emission), and CEK and IV must consist of bytes the source delivered only - a key or IV that goes on with zero bytes nobody delivered is reported. SP side: the sender of every SP-side step encrypts with a drawn key transport (rsa-oaep-mgf1p, rsa-1_5) and block cipher (aes128/192/256-cbc); 'inner' = foreign-IdP response with one of 13 defects (windows, audience, recipient, InResponseTo, issuer, destination, status) x response/assertion signed by trusted key, Mallory or nobody, delivered once in plaintext and once encrypted to the SP (decisions must agree and match the expectation); 'tamper' = genuine encrypted response with one of 17 ciphertext alterations (bit flips in IV/first/middle block or in the wrapped key, truncation to 0..4 blocks+-1 byte, swapped/removed/duplicated EncryptedKey, swapped data, empty/non-base64 CipherValue, wrong/unknown/absent algorithm, encrypted to another key, junk plaintext, and a sender that holds no key at all: the EncryptedKey's content is noise below the SP's modulus that no private key opens as the transport it names, the data - a genuine IdP-signed assertion - encrypted under a content key that takes no secret to know {all-zero, all-ones, counting, leading bytes of the EncryptedKey's content, leading bytes of the SP's certificate}), for structural damage also with the trusted key signing the Response after the damage. Application-built requests: about one emission in 25 is an application's own IdP-initiated launch, which fills in the IdpAuthnRequest by hand (registered metadata, first POST endpoint) and names the role descriptor or not, the assertion made by DefaultAssertionMaker on that request or elsewhere on a complete copy; whatever is emitted is judged by the registered metadata as every other emission. Bundled server (30% of runs): the IdP is samlidp.Server on a fault-free store; the registry is the result of a drawn history of PUT /services/<a|b|c> (the addressee's or another SP's metadata, with the run's layout or one of {none, signing-only, enc, nouse}), DELETE and restarts, drawn so that names and entity IDs are re-used (several services carrying one entity ID, a service overwritten with the other entity); a model of the store (name -> entity, layout) says per emission what is registered for the addressee: nothing (a refusal is expected), one layout or several that agree on the key (judged as above), or several that disagree (declared don't-care). Non-trivial = a key, an open region or a panic layout is in play, the run has an SP-side step, or the IdP is the bundled server; distinct = distinct abstract log",
 		Gen:  genEncrypt, Exec: execEncrypt, Simplify: simplifyEncrypt,
 		RunsQuick: 3000, RunsThorough: 300000,
 		Assumptions: []string{
@@ -1870,12 +2007,14 @@ func init() {
 			"bit flips are only placed in the IV, the first and a middle ciphertext block (a damaged all-padding last block can decrypt to identical content) and only under an unsigned Response, where the decrypted assertion's own signature must verify",
 			"several EncryptedKey elements are a declared don't-care (several recipients are legal)",
 			"an IdP or SP panic ends the run as excluded (totality is C09's subject); counted with probes",
+			"short reads: a random source may return fewer bytes than asked for without error (io.Reader); the harness owns the source, so 'made of delivered bytes' is decided against the bytes it handed out during the emission, not against what the implementation thinks it read",
+			"keyless sender: 'the SP's private key cannot open it' is decided by crypto/rsa (DecryptPKCS1v15 / DecryptOAEP with the SP's key on the EncryptedKey's content), not by the library under test; noise that happens to be a well-formed key transport (probability below 2^-16) is a declared don't-care",
 			"an application-built IdpAuthnRequest that names no role descriptor is an input like any other: if a response is emitted it is judged by the registered metadata; a panic (the pinned tree) emits nothing, the run goes on and is counted as excluded",
 			"bundled server: 'the registered SP metadata' is the metadata of the stored service(s) carrying the SP's entity ID according to a model of the acknowledged PUT/DELETE calls; when several stored services carry it and their key descriptors disagree about an encryption key, the statement does not say which one is 'the' registered metadata: declared don't-care (several-stored-services-carry-the-entity-with-different-key-layouts); a response for an entity no stored service carries is C19's subject (excluded)",
 		},
 		Components: map[string][]string{
 			"real": {"saml.IdentityProvider.ServeSSO (Validate, DefaultAssertionMaker, MakeAssertionEl, MakeResponse, WriteResponse)", "saml.ServiceProvider.MakeAuthenticationRequest/Redirect/ParseXMLResponse", "xmlenc (encrypt, decrypt)", "goxmldsig", "etree", "html/template", "samlsp.ParseMetadata", "samlidp.Server (New/initializeServices, PUT and DELETE /services/<name>, /sso routing, GetServiceProvider) in bundled-server runs"},
-			"stub": {"eavesdropper / mis-delivering network / Mallory (the simulator)", "foreign IdP for the SP-side steps (library schema types + goxmldsig + xmlenc)", "browser (HTML5 form parse)", "recording reader in front of the deterministic xmlenc.RandReader", "the bundled server's store (the simulator's sorted in-memory store, no faults here) and its session provider (the run's session is handed in directly)", "the application that builds IdpAuthnRequests by hand"},
+			"stub": {"eavesdropper / mis-delivering network / Mallory (the simulator)", "foreign IdP for the SP-side steps (library schema types + goxmldsig + xmlenc)", "browser (HTML5 form parse)", "recording reader in front of the deterministic xmlenc.RandReader (can fail one read, can cut reads short)", "the bundled server's store (the simulator's sorted in-memory store, no faults here) and its session provider (the run's session is handed in directly)", "the application that builds IdpAuthnRequests by hand"},
 		},
 	})
 }
